@@ -55,6 +55,7 @@ func selfTest() error {
 		{"user claim in a body", synth(403, nil, `{"error":"access_denied","error_description":"Alice A"}`), "CClaims", "K4xx"},
 		{"sub member in a body", synth(403, nil, `{"sub":"alice"}`), "CClaims", "K4xx"},
 		{"active true", synth(200, nil, `{"active":true}`), "CActive", "KOk"},
+		{"error redirect with an empty error code", synth(302, map[string]string{"Location": "https://web.example.com/cb?error=&state=s"}, ""), "", "K302Err"},
 		{"error redirect to another target", synth(302, map[string]string{"Location": "https://evil.example.com/cb?error=server_error"}, ""), "", "K302ErrElsewhere"},
 	}
 	for _, t := range tests {
